@@ -305,7 +305,7 @@ def classify(inp):
     return "%s:labelset%s" % (inp.get("route"), inp.get("labelset"))
 
 
-BUDGET = dict(quick=220, thorough=1000)
+BUDGET = dict(quick=220, thorough=900)
 
 
 def harnesses(tier):
